@@ -6,6 +6,7 @@ import (
 	"go/token"
 	"go/types"
 	"os"
+	"regexp"
 	"sort"
 	"strings"
 
@@ -21,6 +22,8 @@ import (
 // no labels, is not recursive - is replaced by a block that binds the parameters to the arguments and contains the
 // callee's body; the callee's declaration is blanked. Execution is unchanged (the callee's frame is the last thing the
 // caller does). Lines that move are remembered, so reports still name the file and line the code really has.
+
+var genLabelRe = regexp.MustCompile(`^inl[0-9]+$`)
 
 type lineOrigin struct {
 	file string
@@ -208,10 +211,15 @@ func tailInlineOverlay(pkgs []*packages.Package, base map[string][]byte) map[str
 			bad := false
 			ast.Inspect(callee.Body, func(m ast.Node) bool {
 				switch x := m.(type) {
-				case *ast.DeferStmt, *ast.LabeledStmt:
+				case *ast.DeferStmt:
 					bad = true
+				case *ast.LabeledStmt:
+					// labels this normalisation generated itself (unique by the offset in their name) move along with their block
+					if !genLabelRe.MatchString(x.Label.Name) {
+						bad = true
+					}
 				case *ast.BranchStmt:
-					if x.Tok == token.GOTO || x.Label != nil {
+					if x.Tok == token.GOTO || x.Label != nil && !genLabelRe.MatchString(x.Label.Name) {
 						bad = true
 					}
 				case *ast.Ident:
